@@ -11,7 +11,7 @@ from ._wcommon import (ASSUMPTIONS, COMPONENTS_REAL, COMPONENTS_STUB, Hist, Viol
 from ._wcommon import abstract_states  # noqa: F401,E402
 
 ID = "C12"
-RUNS = {"quick": 8000, "thorough": 250000}
+RUNS = {"quick": 12000, "thorough": 250000}
 BUDGET_S = {"quick": 60, "thorough": 900}
 RULE = ("seeded dependency graphs up to depth 3 mixing generator, async generator, context manager, async context manager, plain and "
         "coroutine dependencies (70% of runs cached-only, 30% with use_cache=False edges), outcomes success / exception / timeout / "
